@@ -12,7 +12,6 @@ import json
 import os
 import random
 import traceback
-from concurrent.futures import ThreadPoolExecutor
 
 from checks import common
 from harness import report, tlc, tracecheck
@@ -240,36 +239,6 @@ def c19(tier, seed):
 # C17
 # =====================================================================================================================
 
-# Genuine defects of the code as found (docs/versions.md "Findings").  They belong into /verif/known_findings.json
-# (shared file, not edited by this engine); until the integrator has copied them there they are registered in memory.
-LOCAL_OPEN_FINDINGS = [
-    {
-        "id": "V1",
-        "property": "C17",
-        "match": {"turnout_dtype": "int64", "matches_int_truncation_model": True},
-        "what": "integer-typed count columns (what pd.read_csv in S3VersionUtil.get and the repository's own versioned "
-        "fixtures produce): turnout / turnout[-1] is written into zeros_like(int array) with casting='unsafe', every "
-        "re-scaled percent collapses to 0 or the last percent - non-monotone histories such as turnout (3, 2, 6) are not "
-        "discarded and regular ones such as turnout (2, 4, 6), dem (1, 3, 3), gop (1, 1, 3), last percent 60 are "
-        "imputed from the wrong observation (-1 instead of 1/3 at 30%)",
-    },
-    {
-        "id": "V2",
-        "property": "C17",
-        "match": {"clause": "irregular_all_missing", "final_turnout_zero": True},
-        "what": "a history whose turnout falls to 0 in its last version, e.g. turnout (5, 0): the where= guard of the "
-        "re-scaling leaves every quotient 0, the monotonicity test passes and the unit returns a non-missing "
-        "correction at percent 0 with error type 'none' instead of 101 missing rows",
-    },
-]
-
-
-def register_local_findings(run):
-    for f in LOCAL_OPEN_FINDINGS:
-        if not any(e["property"] == f["property"] and e["match"] == f["match"] for e in run.findings.open):
-            run.findings.open.append(dict(f))
-
-
 def _zero_final(u):
     h = u["hist"]
     return h[-1]["t"] == 0 and any(v["t"] > 0 for v in h)
@@ -280,26 +249,22 @@ def _key(s):
 
 
 def _job_c17_replay(arg):
-    """spec -> code: a pack of exported histories through the real compute_versioned_margin_estimate.
-    asfound: the terminal states of the model of the code as found on integer columns (or None)."""
-    pack, dtype, asfound = arg
-    out = {"bad": [], "n": 0}
+    """spec -> code: a pack of exported histories through the real compute_versioned_margin_estimate, with float or
+    integer count columns; the terminal state of the (one, intended) model is demanded for both."""
+    pack, dtype = arg
+    out = {"bad": [], "n": 0, "dtype": dtype}
     try:
         obs = V.run_estimates([s["sc"] for s in pack], dtype=dtype)
     except Exception as e:  # noqa: BLE001
         out["bad"].append({"clause": "run_raised", "detail": f"{type(e).__name__}: {e}", "tb": traceback.format_exc()[-1500:],
-                           "scenario": pack[0], "dtype": dtype, "explained": False})
+                           "scenario": pack[0], "dtype": dtype})
         return out
-    for k, (s, o) in enumerate(zip(pack, obs)):
+    for s, o in zip(pack, obs):
         out["n"] += 1
         bad = V.compare_estimates(s["expect"], o, s["expect"]["want_kind"])
-        if not bad:
-            continue
-        explained = False
-        if asfound is not None:
-            explained = not V.compare_estimates(asfound[k]["expect"], o)
-        clause, detail = bad[0]
-        out["bad"].append({"clause": clause, "detail": detail, "scenario": s, "observed": o, "dtype": dtype, "explained": explained})
+        if bad:
+            clause, detail = bad[0]
+            out["bad"].append({"clause": clause, "detail": detail, "scenario": s, "observed": o, "dtype": dtype})
     return out
 
 
@@ -316,18 +281,23 @@ def _job_c17_extrap(pack):
 
 
 def _job_c17_trace(arg):
-    seed, n = arg
+    seed, n, dtype = arg
     rnd = random.Random(seed)
     units = []
     skipped = 0
     while len(units) < n:
         u = V.random_history(rnd)
-        if _zero_final(u) or V.inexact_float_tie(u):
+        if V.inexact_float_tie(u):
             skipped += 1
             continue
         units.append(u)
-    obs = V.run_estimates(units)
-    return [V.margin_trace(u, o) for u, o in zip(units, obs)], skipped
+    obs = V.run_estimates(units, dtype=dtype)
+    out = []
+    for u, o in zip(units, obs):
+        t = V.margin_trace(u, o)
+        t["dtype"] = dtype
+        out.append(t)
+    return out, skipped
 
 
 def _c17_witnesses(run, u, kind, rows=None):
@@ -344,20 +314,16 @@ def _c17_witnesses(run, u, kind, rows=None):
         run.witness("impossible_batch_history")
     if any(v["t"] == 0 for v in h):
         run.witness("zero_vote_version")
+    if _zero_final(u):
+        run.witness("turnout_revised_to_zero_in_last_version")
     if any(a == b for a, b in zip(h, h[1:])):
         run.witness("repeated_version")
     if any(b["d"] < a["d"] or b["g"] < a["g"] for a, b in zip(h, h[1:])):
         run.witness("candidate_revised_downwards")
 
 
-def _c17_facts(clause, leg, dtype="float64", u=None, explained=False):
-    return {
-        "clause": clause,
-        "leg": leg,
-        "turnout_dtype": dtype,
-        "final_turnout_zero": bool(u is not None and _zero_final(u)),
-        "matches_int_truncation_model": bool(explained),
-    }
+def _c17_facts(clause, leg, dtype="float64", u=None):
+    return {"clause": clause, "leg": leg, "turnout_dtype": dtype, "final_turnout_zero": bool(u is not None and _zero_final(u))}
 
 
 def _export(cfg):
@@ -367,11 +333,9 @@ def _export(cfg):
 
 def c17(tier, seed):
     run = report.Run("C17", tier, seed)
-    register_local_findings(run)
     run.assumptions += [
-        "count columns are floats in the runs that decide the property; integer-typed columns are replayed separately "
-        "against the model of the code as found (finding V1)",
-        "histories whose turnout falls to 0 in the last version are replayed separately (finding V2)",
+        "every exported history is replayed twice, with float64 and with int64 count columns (what pd.read_csv yields); "
+        "the same intended model is demanded for both",
         "at percent 0 the imputed margin is 0 by the code's division guard (no votes), not the first observed margin; "
         "'latest percent' is the re-scaled one",
         "recorded runs leave out histories with a re-scaled percent that is a whole number mathematically but not in "
@@ -386,52 +350,39 @@ def c17(tier, seed):
     rnd = random.Random(seed)
     if quick:
         common.mc(run, "MC_VersionedMargin", "MC_VersionedMargin_quick.cfg", timeout=900,
-                  constants={"MaxV": 3, "MaxTurnout": 4, "Pev": [0, 3, 4, 8], "IntTruncation": False})
+                  constants={"MaxV": 3, "MaxTurnout": 4, "Pev": [0, 3, 4, 8], "IntTruncation": False, "MonotoneOnRescaled": False})
     else:
         common.mc(run, "MC_VersionedMargin", "MC_VersionedMargin_thorough.cfg", timeout=2400,
-                  constants={"MaxV": 3, "MaxTurnout": 6, "Pev": [0, 1, 3, 5, 8], "IntTruncation": False})
+                  constants={"MaxV": 3, "MaxTurnout": 6, "Pev": [0, 1, 3, 5, 8], "IntTruncation": False, "MonotoneOnRescaled": False})
         common.mc(run, "MC_VersionedMargin", "MC_VersionedMargin_v4.cfg", timeout=2400,
-                  constants={"MaxV": 4, "MaxTurnout": 3, "Pev": [3, 8], "IntTruncation": False})
-    # ---- finding demonstrations: the model of the code as found reproduces the counterexamples
+                  constants={"MaxV": 4, "MaxTurnout": 3, "Pev": [3, 8], "IntTruncation": False, "MonotoneOnRescaled": False})
+    # ---- finding demonstrations: with the two defects of the code as first found switched back on in the
+    # specification (both are repaired in /repo) TLC reproduces the counterexamples; nothing below depends on them
     common.mc(run, "MC_VersionedMargin", "MC_VersionedMargin_V1_convex.cfg", expect_violation="Convex",
-              name="MC_VersionedMargin_V1_convex (finding demo: integer columns)")
+              name="MC_VersionedMargin_V1_convex (demo of the repaired defect V1: integer truncation)")
     common.mc(run, "MC_VersionedMargin", "MC_VersionedMargin_V1_missing.cfg", expect_violation="AllMissing",
-              name="MC_VersionedMargin_V1_missing (finding demo: integer columns)")
+              name="MC_VersionedMargin_V1_missing (demo of the repaired defect V1: integer truncation)")
     common.mc(run, "MC_VersionedMargin", "MC_VersionedMargin_V2.cfg", expect_violation="AllMissing",
-              name="MC_VersionedMargin_V2 (finding demo: turnout revised to zero)")
-    # ---- exports: intended model, model of the code as found on integer columns, zero-final class
-    cfgs = ["MC_VersionedMargin_export.cfg", "MC_VersionedMargin_export_int.cfg", "MC_VersionedMargin_export_V2.cfg"]
-    if not quick:
-        cfgs = ["MC_VersionedMargin_export_T4.cfg", "MC_VersionedMargin_export_int_T4.cfg", "MC_VersionedMargin_export_V2.cfg"]
-    with ThreadPoolExecutor(3) as ex:
-        exports = dict(ex.map(_export, cfgs))
-    for cfg in cfgs:
-        run.add_tlc(cfg, exports[cfg], {"export": True})
-        if exports[cfg].violation:
-            run.violation(f"tlc:{exports[cfg].violation}", {"model": cfg}, {"trace": exports[cfg].error_trace[:100]})
-    scens = [v for t, v in exports[cfgs[0]].printed if t == "SCEN"]
-    asfound = {_key(v): v for t, v in exports[cfgs[1]].printed if t == "SCEN"}
-    v2scens = [v for t, v in exports[cfgs[2]].printed if t == "SCEN" and _zero_final(v["sc"])]
+              name="MC_VersionedMargin_V2 (demo of the repaired defect V2: monotonicity tested on the quotients)")
+    # ---- export of every terminal state of the (intended) model
+    ecfg = "MC_VersionedMargin_export.cfg" if quick else "MC_VersionedMargin_export_T4.cfg"
+    _, eres = _export(ecfg)
+    run.add_tlc(ecfg, eres, {"export": True})
+    if eres.violation:
+        run.violation(f"tlc:{eres.violation}", {"model": ecfg}, {"trace": eres.error_trace[:100]})
+    scens = [v for t, v in eres.printed if t == "SCEN"]
     run.witness("exported_histories", len(scens))
     for s in scens:
         _c17_witnesses(run, s["sc"], s["expect"]["kind"], s["expect"]["rows"])
-    # ---- spec -> code, float columns: every exported history
+    # ---- spec -> code: every exported history, with float and with integer count columns
     pack = 250
-    jobs = [(scens[a : a + pack], "float64", None) for a in range(0, len(scens), pack)]
-    # integer columns: a seeded sample in quick, everything in thorough
-    iscens = scens if not quick else rnd.sample(scens, min(6000, len(scens)))
-    jobs += [(iscens[a : a + pack], "int64", [asfound[_key(s)] for s in iscens[a : a + pack]]) for a in range(0, len(iscens), pack)]
-    jobs += [(v2scens[a : a + pack], "float64", None) for a in range(0, len(v2scens), pack)]
+    jobs = [(scens[a : a + pack], dt) for dt in ("float64", "int64") for a in range(0, len(scens), pack)]
     for out in common.pool().imap_unordered(_job_c17_replay, jobs, chunksize=1):
         run.cov["scenarios_replayed_into_impl"] += out["n"]
+        run.witness("replayed_with_" + out["dtype"] + "_columns", out["n"])
         for b in out["bad"]:
-            u = b["scenario"]["sc"]
-            if b["dtype"] == "int64" and b["explained"]:
-                run.witness("V1_reproduced_on_integer_columns")
-            if _zero_final(u) and b["dtype"] == "float64":
-                run.witness("V2_reproduced_on_turnout_revised_to_zero")
             if len(run.violations) < 40:
-                run.violation(b["clause"], _c17_facts(b["clause"], "replay", b["dtype"], u, b["explained"]), b)
+                run.violation(b["clause"], _c17_facts(b["clause"], "replay", b["dtype"], b["scenario"]["sc"]), b)
     run.cov["exhaustive"] = True
     reg = next((s for s in scens if s["expect"]["kind"] == "none" and len(s["expect"]["rows"]) > 4 and len(s["sc"]["hist"]) == 3), None)
     if reg:
@@ -459,7 +410,8 @@ def c17(tier, seed):
     per = 40 if quick else 250
     traces = []
     skipped = 0
-    for part, sk in common.pool().imap_unordered(_job_c17_trace, [(seed * 1000 + k, per) for k in range(n_tr // per)], chunksize=1):
+    tjobs = [(seed * 1000 + k, per, "int64" if k % 2 else "float64") for k in range(n_tr // per)]
+    for part, sk in common.pool().imap_unordered(_job_c17_trace, tjobs, chunksize=1):
         traces.extend(part)
         skipped += sk
     traces.sort(key=lambda t: json.dumps(t["sc"], sort_keys=True))
@@ -468,6 +420,7 @@ def c17(tier, seed):
         _c17_witnesses(run, t["sc"], t["obs"]["kind"], t["obs"]["rows"])
         if len(t["sc"]["hist"]) >= 8:
             run.witness("trace_with_8_or_more_versions")
+        run.witness("trace_with_" + t.pop("dtype") + "_columns")
     for f in sorted(glob.glob("/repo/tests/fixtures/data/*/*/versioned_*.csv")):
         try:
             df, us, ids = V.fixture_units(f)
@@ -482,7 +435,7 @@ def c17(tier, seed):
             raise tlc.MachineryError(f"cannot load fixture {f}: {e}")
 
     def on_reject(tr, clause, inv):
-        f = _c17_facts(clause, "trace", "float64", tr["sc"])
+        f = _c17_facts(clause, "trace", "any", tr["sc"])
         f["invariant"] = inv
         run.violation(clause, f, {"trace": tr})
 
@@ -522,6 +475,10 @@ def c17(tier, seed):
             "non_monotone_history",
             "impossible_batch_history",
             "zero_vote_version",
+            "turnout_revised_to_zero_in_last_version",
+            "replayed_with_float64_columns",
+            "replayed_with_int64_columns",
+            "trace_with_int64_columns",
             "repeated_version",
             "candidate_revised_downwards",
             "extrapolation_group_with_irregular_unit",
